@@ -371,7 +371,25 @@ struct CmpND {
                 std::string cls = i < 2 ? "equality" : (mixed_den ? "order/one-negative-denominator" : "order");
                 return o.fail("cmpnd/" + cls + "/value-mismatch", std::string("operator") + names[i] + (got[i] != expect[i] ? "" : " (operands swapped)") + " expected " + (expect[i] ? "true" : "false"));
             }
-        o.pass(to_mpz(b) < 0 || to_mpz(d) < 0 || ord == 0, ord == 0 ? "equal" : mixed_den ? "one-negative-denominator"
+        // fractions of one type that compare equal hash equal (when the canonical form is representable in the component types)
+        bool hashed = false;
+        if constexpr (std::is_same_v<N1, N2> && std::is_same_v<D1, D2>) {
+            mpq_class const vq = mkq(to_mpz(a), to_mpz(b));
+            bool const mn = (is_signed_int_v<N1> && bits_v<N1> >= 32 && (a == int_min<N1>() || c == int_min<N1>()))
+                         || (is_signed_int_v<D1> && bits_v<D1> >= 32 && (b == int_min<D1>() || d == int_min<D1>()));
+            if (ord == 0 && fits<N1>(vq.get_num()) && fits<D1>(vq.get_den()) && !mn) {
+                std::size_t h1 = 0, h2 = 0;
+                Outcome o2;
+                bool ok2 = guard(o2, [&] {
+                    h1 = std::hash<cnl::fraction<N1, D1>>{}(cnl::fraction<N1, D1>(a, b));
+                    h2 = std::hash<cnl::fraction<N2, D2>>{}(cnl::fraction<N2, D2>(c, d));
+                });
+                if (!ok2) return o.fail("cmpnd/hash/" + o2.fclass, o2.msg);
+                if (h1 != h2) return o.fail("cmpnd/hash-of-equal-fractions-differs", "hashes " + std::to_string(h1) + " vs " + std::to_string(h2));
+                hashed = true;
+            }
+        }
+        o.pass(to_mpz(b) < 0 || to_mpz(d) < 0 || ord == 0, ord == 0 ? (hashed ? "equal+hash" : "equal") : mixed_den ? "one-negative-denominator"
                                                                     : (to_mpz(b) < 0) ? "both-negative-denominators"
                                                                                       : "positive-denominators");
     }
@@ -401,6 +419,13 @@ struct CmpND {
         }
         check(a, b, c, d, o, desc);
     }
-    static void reg() { add_site({"C16|cmpnd|" + tname<N1>::get() + "_" + tname<D1>::get() + "|" + tname<N2>::get() + "_" + tname<D2>::get(), run, 0, nullptr}); }
+    // all four components 8-bit: every pair with components in the 16 values around zero (and around 128 for unsigned ones)
+    static constexpr std::uint64_t enum_size() { return (bits_v<N1> == 8 && bits_v<D1> == 8 && bits_v<N2> == 8 && bits_v<D2> == 8) ? (std::uint64_t{1} << 16) : 0; }
+    static void run_enum(std::uint64_t idx, Outcome& o, std::string* desc)
+    {
+        auto c = [&](int k) { return int((idx >> (4 * k)) & 15) - 8; };
+        check(static_cast<N1>(c(0)), static_cast<D1>(c(1)), static_cast<N2>(c(2)), static_cast<D2>(c(3)), o, desc);
+    }
+    static void reg() { add_site({"C16|cmpnd|" + tname<N1>::get() + "_" + tname<D1>::get() + "|" + tname<N2>::get() + "_" + tname<D2>::get(), run, enum_size(), run_enum}); }
 };
 }  // namespace c16
